@@ -53,7 +53,7 @@ reg(C15(
         "single goroutine per target for the counter laws (the concurrency clause is a lockset annotation, see C15_no_unprotected_access)",
         "one clock reading per API call; the clock (cache.Now, latency.Now) does not run backwards",
         "no int64 overflow of accumulated durations / counters (model uses unbounded Z)",
-        "cache created without latency windows, server name and excluded metadata; latency.Latency is driven directly for the window statistics",
+        "counter families: cache created without latency windows, server name and excluded metadata; window statistics: latency.Latency driven directly, and a cache built WITH latency windows whose exported statistics are checked against the ACCEPTED (announced) post-sync non-metadata updates (suppressed and refused updates are not samples, as on HEAD)",
         "typed values restricted to string/int/uint/bool/bytes/json/empty; json size of a leaf abstracted (UpdateSize stores the sum the harness computes itself)",
         "no delete addressed to the metadata leaf of one of the counters themselves (such a delete resets that counter)",
     ],
